@@ -183,10 +183,18 @@ def run(ctx):
                     if abs(got_c - want_c) > 1e-9 * abs(want_c):
                         ctx.violation("powerlaw_mle_alpha/continuitycorrection/wrong_value", f"powerlaw_mle_alpha({c}, cmin={cmin}, 'continuitycorrection') = {got_c} want {want_c}", rp)
                     if cminr[1] == 1:
+                        if r % 8 == 3:
+                            # a call with its own optimiser options first: it must honour them, and they must not leak into the next call
+                            lo, hi = ctx.rng.choice([(2.0, 2.5), (1.6, 1.9), (3.5, 4.0)])
+                            got_b = prs.powerlaw_mle_alpha(np.array(c), cmin=cmin, method="exact", bounds=[lo, hi])
+                            gridb = np.linspace(lo, hi, 101)
+                            bestb = max(loglik(c, a, cmin) for a in gridb)
+                            if not (lo - 1e-9 <= got_b <= hi + 1e-9) or loglik(c, got_b, cmin) < bestb - 1e-4 * max(1.0, abs(bestb)):       # optimiser tolerance (xatol) near a bound
+                                ctx.violation("powerlaw_mle_alpha/exact/custom_bounds_not_honoured", f"powerlaw_mle_alpha({c}, cmin={cmin}, 'exact', bounds=[{lo},{hi}]) = {got_b}", rp)
                         got_e = prs.powerlaw_mle_alpha(np.array(c), cmin=cmin, method="exact")
                         grid = np.linspace(1.5, 4.5, 301)
                         best = max(loglik(c, a, cmin) for a in grid)
-                        if not (1.5 - 1e-9 <= got_e <= 4.5 + 1e-9) or loglik(c, got_e, cmin) < best - 1e-6 * max(1.0, abs(best)):
+                        if not (1.5 - 1e-9 <= got_e <= 4.5 + 1e-9) or loglik(c, got_e, cmin) < best - 1e-4 * max(1.0, abs(best)):
                             ctx.violation("powerlaw_mle_alpha/exact/not_a_maximiser", f"powerlaw_mle_alpha({c}, cmin={cmin}, 'exact') = {got_e}: loglik {loglik(c, got_e, cmin)} < grid max {best}", rp)
                     ctx.evaluations += 3
                 except Exception as e:      # noqa: BLE001
